@@ -434,6 +434,13 @@ pub struct DegCase {
     /// 0 generous, 1 = 0 ms, 2 = 1 ms, 3 = Duration::MAX
     pub stop_timeout: u8,
     pub blamed_other: bool,
+    /// state of the DUMPING process: it may only open this many more descriptors (every further open
+    /// fails with EMFILE)
+    #[serde(default)]
+    pub fd_budget: Option<u8>,
+    /// the dumping thread has every signal blocked
+    #[serde(default)]
+    pub signals_blocked: bool,
 }
 
 pub fn check_degenerate(c: &DegCase) -> Verdict {
@@ -553,7 +560,25 @@ pub fn check_degenerate(c: &DegCase) -> Verdict {
     }
     let mut w = make_writer(pid, &o);
     let mut dest = Dest::new(vec![], 0);
-    let out = with_watchdog(30.0, || run_dump(&mut w, &mut dest));
+    let mut oldmask: libc::sigset_t = unsafe { std::mem::zeroed() };
+    if c.signals_blocked {
+        unsafe {
+            let mut all: libc::sigset_t = std::mem::zeroed();
+            libc::sigfillset(&mut all);
+            libc::pthread_sigmask(libc::SIG_BLOCK, &all, &mut oldmask);
+        }
+        classes.push("dumper:signals-blocked".to_string());
+    }
+    let out = match c.fd_budget {
+        Some(k) => {
+            classes.push(format!("dumper:descriptor-budget-{}", (k % 12).min(9)));
+            with_watchdog(30.0, || with_fd_budget(k % 12, || run_dump(&mut w, &mut dest)))
+        }
+        None => with_watchdog(30.0, || run_dump(&mut w, &mut dest)),
+    };
+    if c.signals_blocked {
+        unsafe { libc::pthread_sigmask(libc::SIG_SETMASK, &oldmask, std::ptr::null_mut()) };
+    }
     if state == 3 {
         unsafe { libc::kill(pid, libc::SIGCONT) };
     }
@@ -636,9 +661,9 @@ pub fn run(ctx: &mut LaneCtx) {
         SubSpec {
             name: "degenerate-targets",
             cases: (640, 20_000),
-            rule: "target state {killed and not reaped (zombie: nothing can be stopped), gone (no such process), every thread held by another tracer (nothing can be attached), already group-stopped, ordinary} with 0..26 parked threads x size limit {none, 0, 1, 0..200000, around 64 KiB, u64::MAX} x sanitize x skip-unreferenced with principal address {unmapped, in a stack, 0, top} x crash context {none, in mappings, unmapped, top of the address space} x app memory x stop timeout {generous, 0, 1 ms, Duration::MAX} x blamed thread main/other; oracle = the request returns Ok or Err within the watchdog, no panic; every case non-trivial; distinct = hash of case",
-            strategy: ((0u8..5, prop_oneof![3 => 0u8..6, 1 => 19u8..27], 0u8..6, any::<u32>(), any::<bool>()), (0u8..5, 0u8..4, any::<bool>(), 0u8..4, any::<bool>()))
-                .prop_map(|((state, threads, limit, limit_val, sanitize), (skip, crash, app, stop_timeout, blamed_other))| DegCase { state, threads, limit, limit_val, sanitize, skip, crash, app, stop_timeout, blamed_other })
+            rule: "target state {killed and not reaped (zombie: nothing can be stopped), gone (no such process), every thread held by another tracer (nothing can be attached), already group-stopped, ordinary} with 0..26 parked threads x size limit {none, 0, 1, 0..200000, around 64 KiB, u64::MAX} x sanitize x skip-unreferenced with principal address {unmapped, in a stack, 0, top} x crash context {none, in mappings, unmapped, top of the address space} x app memory x stop timeout {generous, 0, 1 ms, Duration::MAX} x blamed thread main/other x state of the dumping process {may open only 0..11 more descriptors, all signals blocked}; oracle = the request returns Ok or Err within the watchdog, no panic; every case non-trivial; distinct = hash of case",
+            strategy: ((0u8..5, prop_oneof![3 => 0u8..6, 1 => 19u8..27], 0u8..6, any::<u32>(), any::<bool>()), (0u8..5, 0u8..4, any::<bool>(), 0u8..4, any::<bool>()), (proptest::option::weighted(0.35, 0u8..12), proptest::bool::weighted(0.25)))
+                .prop_map(|((state, threads, limit, limit_val, sanitize), (skip, crash, app, stop_timeout, blamed_other), (fd_budget, signals_blocked))| DegCase { state, threads, limit, limit_val, sanitize, skip, crash, app, stop_timeout, blamed_other, fd_budget, signals_blocked })
                 .boxed(),
             max_shrink_iters: 100,
             log_current: true,
